@@ -46,7 +46,10 @@ def main(argv=None):
             rec.count("workers_with_a_hostile_history" if what
                       else "workers_starting_fresh")
             hb.beat()
-        mod.shard(i, n, tier, seed, rec, hb)
+        try:
+            mod.shard(i, n, tier, seed, rec, hb)
+        except common.EnoughViolations:
+            rec.count("worker_stopped_early_by_VERIF_FAILFAST")
         common.write_shard_result(i, rec)
         return 0
 
